@@ -126,9 +126,19 @@ def replay(prop, name, r):
         scn = match_scenario(r); o = native('native_match.py', scn)
         rec = {'scenario': scn, 'observed': o}
         if 'never_raises' in name:
-            rec['clause_holds_on_real_code'] = o['raised'] is None
-            return (o['raised'] is not None), rec
-        return None, rec
+            bad = o['raised'] is not None
+        else:
+            bad = o['raised'] is not None or (o.get('expected') not in (None, 'None') and o.get('result') is not None and
+                                              (o['result'] in ('True', 'False')) and o['result'] != o['expected'])
+        if not bad:
+            # the model's values for the uninterpreted pattern-matching function may be unrealistic: search a small universe natively
+            f = native('native_match.py', {'search': True})['found']
+            rec['search_over_small_universe'] = f
+            if f is None:
+                return None, rec
+            bad = True
+        rec['clause_holds_on_real_code'] = not bad
+        return bad, rec
     scn = tr_scenario(name, r)
     if scn is None:
         return None, 'no scenario builder for this obligation'
